@@ -320,6 +320,14 @@ def reference(spec, graph):
                 if idx[x] != idx[y]:
                     edges.add(frozenset((idx[x], idx[y])))
 
+    # ---- explicit links (by atom number of the final molecule): applied after all other links -----------------
+    for ex in spec.get("explicit", []):
+        ga = tuple(ex["atoms"])
+        applied[(ex["sec"], ga, "explicit")] = (tuple(ex["params"]), {}, "explicit")
+        link_keys.add((ex["sec"], ga, "explicit"))
+        for x, y in zip(ga[:-1], ga[1:]):
+            edges.add(frozenset((x, y)))
+        stats["explicit_links"] += 1
     # ---- assemble ------------------------------------------------------------------------------------------
     exp_inter = defaultdict(Counter)
     for (sec, ga, ver), (params, meta, origin) in applied.items():
